@@ -95,6 +95,7 @@ type image struct {
 	appended bool   // the in-flight mutation's entry has been written to a segment
 	endFile  bool   // ... and the rollback's .END file has been renamed into place
 	files    []imgFile
+	top      []imgFile // regular files directly in the data directory, next to wal/ (none on the current tree)
 }
 
 type collector struct {
@@ -192,6 +193,23 @@ func (c *collector) onFileOp(kind, path string) {
 			c.blobs[h] = b
 		}
 		img.files = append(img.files, imgFile{name: e.Name(), blob: h, size: len(b)})
+	}
+	// a process that stops leaves the WHOLE data directory behind, not only the log
+	if tops, err := os.ReadDir(filepath.Dir(c.walDir)); err == nil {
+		for _, e := range tops {
+			if !e.Type().IsRegular() {
+				continue
+			}
+			b, err := os.ReadFile(filepath.Join(filepath.Dir(c.walDir), e.Name()))
+			if err != nil {
+				continue
+			}
+			h := sha256.Sum256(b)
+			if _, ok := c.blobs[h]; !ok {
+				c.blobs[h] = b
+			}
+			img.top = append(img.top, imgFile{name: e.Name(), blob: h, size: len(b)})
+		}
 	}
 	c.images = append(c.images, img)
 }
@@ -481,6 +499,12 @@ func checkC20Image(root string, run *c20Run, img *image) (res imgResult) {
 	}
 	for _, f := range img.files {
 		if err := os.WriteFile(filepath.Join(wd, f.name), run.blobs[f.blob], 0o640); err != nil {
+			res.harness = err
+			return
+		}
+	}
+	for _, f := range img.top {
+		if err := os.WriteFile(filepath.Join(dir, f.name), run.blobs[f.blob], 0o640); err != nil {
 			res.harness = err
 			return
 		}
@@ -1038,7 +1062,7 @@ func c20Witness(t *testing.T, rec *ev.Recorder, root string) {
 
 func TestC20(t *testing.T) {
 	rec := ev.New(t, "C20")
-	rec.Rule("rapid-generated mutation histories (put, delete, prefix append over 3 children so that conflicts are frequent, prefix remove, import with overlapping keys, remove-keys (both with 1..3 keys, and in one history out of four with 1..80 keys of an 84-key alphabet, 40 % of those above 16 keys, values 2 B..3 KB), clean restart, and 'concurrent batch' steps in which 2..4 goroutines released from a spin barrier issue mutations on one key at the same instant - the same PrefixAppend from all of them, append vs remove of one child, put vs delete, or a mix; 5..30 steps, thorough 5..60; one history in a hundred (thorough: twenty), plus one fixed history per run, with 0.7-2.1 MiB values arranged so that the segment cycles and a rejected append is rolled back across segments; one in four with a 20 us flush ticker) run through the real Start loop. Every MkdirAll/OpenFile/Write/Sync/Close/Rename/Remove of the WAL library yields one crash image (copy of the log directory) tagged (mutations completed, mutation in flight); ALL images of a history are reopened with aof.New and read back (Get + PrefixList of every alphabet key); an image taken during a concurrent batch must equal the state before the batch plus some subset of its members in some order, and after the batch the model continues from the live state provided an ordering of all members consistent with their results explains it. One evaluation = one image. Non-trivial: the image was taken while the log is ahead of the acknowledged prefix, i.e. the entry of the in-flight mutation is already in a segment file and the client has no answer yet (for a mutation the store rejects this lasts from the write of its entry to the end of its rollback; those images are labelled window:rejected-mutation-in-log). Distinct = distinct (history, image index).")
+	rec.Rule("rapid-generated mutation histories (put, delete, prefix append over 3 children so that conflicts are frequent, prefix remove, import with overlapping keys, remove-keys (both with 1..3 keys, and in one history out of four with 1..80 keys of an 84-key alphabet, 40 % of those above 16 keys, values 2 B..3 KB), clean restart, and 'concurrent batch' steps in which 2..4 goroutines released from a spin barrier issue mutations on one key at the same instant - the same PrefixAppend from all of them, append vs remove of one child, put vs delete, or a mix; 5..30 steps, thorough 5..60; one history in a hundred (thorough: twenty), plus one fixed history per run, with 0.7-2.1 MiB values arranged so that the segment cycles and a rejected append is rolled back across segments; one in four with a 20 us flush ticker) run through the real Start loop. Every MkdirAll/OpenFile/Write/Sync/Close/Rename/Remove of the WAL library yields one crash image (copy of the log directory and of every regular file next to it in the data directory) tagged (mutations completed, mutation in flight); ALL images of a history are reopened with aof.New and read back (Get + PrefixList of every alphabet key); an image taken during a concurrent batch must equal the state before the batch plus some subset of its members in some order, and after the batch the model continues from the live state provided an ordering of all members consistent with their results explains it. One evaluation = one image. Non-trivial: the image was taken while the log is ahead of the acknowledged prefix, i.e. the entry of the in-flight mutation is already in a segment file and the client has no answer yet (for a mutation the store rejects this lasts from the write of its entry to the end of its rollback; those images are labelled window:rejected-mutation-in-log). Distinct = distinct (history, image index).")
 	rec.Assume(
 		"crash = the process stops (SIGKILL, panic, OOM kill): everything handed to the kernel survives, so a copy of the directory at a file-operation boundary is the post-crash image; power loss / torn sectors are C22's subject",
 		"granularity is the file-operation boundary named by the property's quantifier; a write(2) is not split",
